@@ -23,7 +23,9 @@ type c12Round struct {
 	K int `json:"k"`
 	// Special: "" | "dup" (answer twice) | "wrongseq" (answer with another sequence number first, then properly at K)
 	// | "peerhb" (K = 1: the answer is held back and the peer sends a Heartbeat Request of its own while the
-	// agent's request is outstanding)
+	// agent's request is outstanding) | "reassoc" (K >= 2: while the first transmission goes unanswered the peer sets
+	// the association up again on the same connection - same Recovery Time Stamp -; the K-th transmission is
+	// answered and must count)
 	Special string `json:"special,omitempty"`
 }
 
@@ -41,9 +43,12 @@ func genC12(t *rapid.T) c12Case {
 	nr := rapid.IntRange(1, 3).Draw(t, "rounds")
 	for i := 0; i < nr; i++ {
 		r := c12Round{K: rapid.IntRange(1, c.N+1).Draw(t, "k")}
-		r.Special = rapid.SampledFrom([]string{"", "", "", "dup", "wrongseq", "peerhb"}).Draw(t, "special")
+		r.Special = rapid.SampledFrom([]string{"", "", "", "dup", "wrongseq", "peerhb", "reassoc"}).Draw(t, "special")
 		if r.Special == "peerhb" {
 			r.K = 1
+		}
+		if r.Special == "reassoc" && r.K < 2 {
+			r.K = 2
 		}
 		c.Rounds = append(c.Rounds, r)
 	}
@@ -63,6 +68,8 @@ type hbTracker struct {
 	slow     map[uint32]bool
 	dead     bool
 	peerHB   []time.Time // when the peer sent a heartbeat of its own into an outstanding agent heartbeat
+	nodeID   string
+	reassoc  int // Association Setup Requests sent into an outstanding heartbeat
 }
 
 // holdBack is how long a "peerhb" round keeps the agent's heartbeat unanswered: short of a retransmission
@@ -122,6 +129,13 @@ func (h *hbTracker) policy(n int, seq uint32) (bool, time.Duration) {
 			return true, d
 		}
 	}
+	if r.Special == "reassoc" && k == 1 {
+		h.reassoc++
+		go func(round int) {
+			_ = h.p.Send(model.AssocSetupTS(0x7b0000+uint32(round), h.nodeID, 0))
+		}(round)
+		return false, 0
+	}
 	if r.Special == "wrongseq" && k < r.K {
 		// a response with a sequence number nobody asked for must not count as an answer
 		_ = h.p.Send(message.NewHeartbeatResponse((seq+77)&0xffffff, ie.NewRecoveryTimeStamp(model.PeerTS)))
@@ -155,7 +169,7 @@ func runC12(c c12Case, ev *Ev) error {
 	}
 	defer run.Close()
 	p := run.Peers[0].P
-	h := &hbTracker{c: c, p: p, tx: map[uint32]int{}, answered: map[uint32]time.Time{}, slow: map[uint32]bool{}}
+	h := &hbTracker{c: c, p: p, tx: map[uint32]int{}, answered: map[uint32]time.Time{}, slow: map[uint32]bool{}, nodeID: run.Peers[0].NodeID}
 	p.SetOnHB(h.policy)
 	resp := time.Duration(c.RespMs) * time.Millisecond
 	t0 := time.Now()
@@ -186,6 +200,14 @@ func runC12(c c12Case, ev *Ev) error {
 			}
 		}
 		time.Sleep(2 * time.Millisecond)
+	}
+	h.mu.Lock()
+	settle := h.reassoc > 0 && !dies
+	h.mu.Unlock()
+	if settle {
+		// two monitors were at work for a while (the one of the old association finishes its request): requests
+		// overlap, so the appearance of the next sequence number does not mean that the previous one is settled
+		time.Sleep(time.Duration(c.N+1) * resp)
 	}
 	if dies {
 		// wait (>= 10x nominal) until the dead peer's sessions are gone
@@ -269,8 +291,13 @@ func runC12(c c12Case, ev *Ev) error {
 	// distinct requests use distinct sequence numbers by construction of the grouping; sequence numbers must not be reused later
 	seen := map[uint32]int{}
 	last := uint32(0)
+	h.mu.Lock()
+	interleaved := h.reassoc > 0
+	h.mu.Unlock()
 	for i, q := range reqs {
-		if q.Seq != last {
+		// (after a re-association the monitor of the old association may still be retransmitting its request while the
+		// new one sends its first: retransmissions then interleave with another request, which is no reuse)
+		if q.Seq != last && !interleaved {
 			if prev, dup := seen[q.Seq]; dup && prev != i {
 				return fmt.Errorf("sequence number %d is used by two different requests", q.Seq)
 			}
@@ -279,6 +306,13 @@ func runC12(c c12Case, ev *Ev) error {
 		last = q.Seq
 	}
 	// liveness of the association
+	h.mu.Lock()
+	nReassoc := h.reassoc
+	h.mu.Unlock()
+	if nReassoc > 0 {
+		p.Drain() // the Association Setup Responses
+		ev.Label("reassociation-into-outstanding-heartbeat")
+	}
 	probe := p.Probe(0x123456, 1500*time.Millisecond)
 	_ = probe
 	o := run.Exec(model.Op{Kind: "mod", Peer: 0, Seq: 900, Sess: 0, Note: "any", UpdFARs: []model.FAR{{ID: 2, Action: model.ActDROP, HasFwd: true}}})
